@@ -83,6 +83,8 @@ def check(run: Run) -> None:
     for c in fs[:: (6 if run.tier == "quick" else 1)]:
         add(c["src"], "fstring.tla")
         add(c["src"][1:-1] + "\n", "fstring.tla:stmt")
+    for c in gens.lexgen(run, 3 if run.tier == "quick" else 4)[:: (4 if run.tier == "quick" else 1)]:
+        add(c["src"], "lexgen")
     by_op = {}
     for i, c in enumerate(cases):
         by_op.setdefault(c["op"], []).append(i)
